@@ -249,17 +249,14 @@ func (r *Runner) discharge(tf *TF, dom Domain, o *Obligation, rep *HarnessReport
 		}
 	}
 	timeout := 60 * time.Second
-	if r.tierThorough() {
+	if r.tierThorough() && !o.First {
 		timeout = 600 * time.Second
 	}
-	prim, fb := solversFor(dom, r.tierThorough())
+	prim, fb := solversFor(dom, r.tierThorough() && !o.First)
 	r.sem <- struct{}{}
 	defer func() { <-r.sem }()
 	var res CheckResult
-	if r.tierThorough() && o.First {
-		all := append(append([]string{}, prim...), fb...)
-		res, _ = r.Pool.Portfolio(all, script, names, timeout, false)
-	} else if r.tierThorough() {
+	if r.tierThorough() && !o.First {
 		all := append(append([]string{}, prim...), fb...)
 		var got []CheckResult
 		res, got = r.Pool.Portfolio(all, script, names, timeout, true)
